@@ -1138,11 +1138,8 @@ theorem upstream_same (cfg : Cfg) (w : World) (t : Nat) (order chain : List Nat)
       · rename_i hvo
         have hvo' : validOrder cl order = true := by simpa using hvo
         split
-        · -- data from another scope: cut, refused, re-connected
-          dsimp only
-          refine ⟨rfl, rfl, rfl, rfl, rfl, rfl, rfl, rfl, rfl, ?_, ?_⟩
-          · exact mem_cut_reconnect w.g _ h
-          · rw [cutRec_fst]; exact (h.disconnectChans _).reconnect _
+        · -- data from another scope: refused, the cut lists are put back as they were
+          exact .refl w h
         · split
           · exact .refl w h
           · rename_i hvc
@@ -1244,8 +1241,7 @@ theorem upstream_log (cfg : Cfg) (w : World) (t : Nat) (order chain : List Nat) 
       · rename_i hvo
         have hvo' : validOrder cl order = true := by simpa using hvo
         split
-        · dsimp only
-          exact ⟨by simp, [], List.nil_prefix, by simp, by simp, by simp⟩
+        · exact trivial_case _ (by simp) (by simp)
         · rename_i hscope
           split
           · exact trivial_case _ (by simp) (by simp)
